@@ -125,7 +125,9 @@ theorem validate_sound_model : ∀ part ∈ parts, ∀ e ∈ part, ∀ (inst : I
   obtain ⟨R, hres, hne, hrows⟩ := sig_rows_sound part hp e he
   rw [← hid] at hres
   unfold validate at hv
-  rw [hres] at hv
+  by_cases hid0 : inst.id = 0
+  · rw [if_pos hid0] at hv; exact absurd hv (by decide)
+  rw [if_neg hid0, hres] at hv
   simp only at hv
   obtain ⟨sigs, cf, cm, hs, hm⟩ := validateR_stages R inst ops hv
   have hemp : R.rows.isEmpty = false := by
